@@ -235,8 +235,26 @@ CHECKS.update({
         ref="4/C20"),
 })
 
+CHECKS.update({
+    "C04": dict(
+        technique="static analysis: loop-membership and dominance rules on the constructor compiler (parameter-property stores vs. the parameter loop and "
+                  "the field initialisers), belief agreement over ast::Expression variants inside the enum lowering (per-variant edge following, "
+                  "path-sensitive in the boolean temporaries of matches!/&&/||, from the switches on the member's initialiser to the reverse-mapping gate "
+                  "and to the writes of the auto-increment counter), sibling agreement of the enum and namespace lowerings and of the namespace and "
+                  "module export steps; positive-control fixture",
+        text="Decides nine structural necessary conditions of the three lowerings, not equivalence of values with the tsc emit: every "
+             "parameter-property decision tests accessibility OR readonly and both identifier and defaulted-identifier parameters have it; no "
+             "`this.x = x` store is emitted inside the loop that binds parameters and evaluates defaults, and the stores precede the instance field "
+             "initialisers; every enum member gets its forward mapping; the reverse mapping is withheld by syntactic form only for string-valued "
+             "initialisers; the enum binding is declared before its members compile; every initialiser form treated as numeric writes the "
+             "auto-increment counter (a contradiction between the two beliefs restarted the numbering after `A = -10` - reproduced with computed "
+             "members and repaired, fix: commit); enum and namespace declarations both look up an existing binding before creating their object (the "
+             "enum lowering does not: repeated enum declarations do not merge - known finding); the namespace export step handles the same declaration "
+             "kinds as the module export step.",
+        ref="4/C04"),
+})
+
 NOT_APPLICABLE = {
-    "C04": "value equivalence with the TypeScript emit; no structural mechanism exists (DESIGN.md 4/C04)",
 }
 PENDING = "static rules for this property are designed (DESIGN.md section 4) but not yet built; not claimed until they are"
 
